@@ -84,8 +84,8 @@ Theorem C39_over_recovery : forall c s e, reach c s -> ph s = PReturned e ->
 Proof. exact over_recovery_state. Qed.
 Print Assumptions C39_over_recovery.
 
-(* for a non-negative RecoverThreshold: ErrOverRecovery exactly when more than RecoverThreshold exits were processed *)
-Theorem C39_over_recovery_trace : forall c tr s e, 0 <= T c -> fresh_run c (init c) tr ->
+(* the oracle form (non-negative RecoverThreshold): ErrOverRecovery exactly when more than RecoverThreshold exits were processed *)
+Theorem C39_over_recovery_trace : forall c tr s e, fresh_run c (init c) tr ->
   run c (init c) tr = Some s -> ph s = PReturned e -> over_recovery_ok c tr e = true.
 Proof. exact accepted_over_recovery. Qed.
 Print Assumptions C39_over_recovery_trace.
